@@ -20,7 +20,7 @@ THEOREMS = ["Gozod.C02." + t for t in [
     "c02_du_law", "parseDUDecl_run", "c02_du_illformed", "c02_du_selects_one",
     # round 4: container-level checks of every kind (Refine, Overwrite), validatePointer's pre-pass
     "runOw_eq_run", "runOw_eq_run_noOverwrite", "sizeOK_custom_false", "sizeOK_cons_overwrite", "sizeOK_cons_custom_true",
-    "c02_slice_checks", "c02_overwrite_skipped_legacy", "runOw_issues_sub", "c02_refine_on_nil_false",
+    "c02_slice_checks", "c02_overwrite_skipped_legacy", "runOw_issues_sub", "c02_refine_on_nil_legacy", "c02_nil_ignores_refinements",
     # round 4: Object.Required (fixed 75cf747; legacy witnesses)
     "required_fixed_named", "required_fixed_other", "required_legacy_all_optional", "required_legacy_others_optional",
     "c02_required_witness",
